@@ -247,4 +247,42 @@ def r4(ctx):
     return rep
 
 
-RULES = [("C16.R1", r1), ("C16.R2", r2), ("C16.R3", r3), ("C16.R4", r4)]
+def r5(ctx):
+    rep = Report("C16.R5", "the eviction sweep re-reads the store size in every round: its only exit besides 'usage <= limit' is 'store empty', which another connection can make true at any time", floor=2)
+    f = ctx.facts
+    b = f.one(RP + "::incr_mem_usage")
+    rep.analysed(b)
+    from rules.c17 import natural_loop
+
+    loops = [natural_loop(b, t_, h) for t_, h in b.has_cycle()]
+    # the sweep loop: the one that contains the remove_if call
+    rm = [bb for bb, t in b.calls() if t.callee.name == "remove_if"]
+    ln = [bb for bb, t in b.calls() if t.callee.name in ("len", "is_empty") and (t.callee.trait == CACHE or (t.callee.path or "").startswith(CACHE))]
+    sweep = [L for L in loops if rm and rm[0] in L]
+    rep.check(bool(sweep), "sweep-loop", "eviction loop found", "cannot find the eviction loop (a loop containing the remove_if call)", b.loc())
+    if sweep:
+        L = sweep[0]
+        inside = [x for x in ln if x in L]
+        rep.check(bool(inside), "sweep:size-read-inside-loop", "store.len()/is_empty() is called inside the loop", "the eviction loop decides 'store is empty' from a size read before the loop: if another connection empties the store meanwhile (flush, deletes, expiry, a racing sweep) remove_if finds nothing, usage never drops and the loop spins forever", b.loc())
+        # and the emptiness test leads out of the loop
+        exits = False
+        for x in inside:
+            # a branch after the size read with one successor outside the loop
+            seen = set()
+            st = [x]
+            while st:
+                y = st.pop()
+                if y in seen or y not in L:
+                    continue
+                seen.add(y)
+                t = b.blocks[y].term
+                if t.k == "switch" and any(s_ not in L for s_ in t.succs()):
+                    exits = True
+                if t.k == "call" and t.callee.name == "remove_if":
+                    continue
+                st.extend(t.succs())
+        rep.check(exits, "sweep:empty-exit", "an exit of the loop follows the size read", "no exit of the eviction loop depends on the store size read inside it", b.loc())
+    return rep
+
+
+RULES = [("C16.R1", r1), ("C16.R2", r2), ("C16.R3", r3), ("C16.R4", r4), ("C16.R5", r5)]
